@@ -90,6 +90,11 @@ CLAIMED = {
          "and on the command line, seeded option triples, list order, config-file-relative paths/outfiles, -D over file userdata "
          "(this half is exhaustive path exploration rather than symbolic reasoning)", "DESIGN.md 4/C20",
          "symbolic execution of real code + z3 (finite alphabet merged; presence flags enumerated by solver)"),
+ "C11": ("registration histories (type, pattern, function, matcher switches) enumerated by solver-driven choice through the real "
+         "StepRegistry/matchers; after every history all lookups (step type x text pool) are compared with an independent full-match "
+         "reference (type-specific before generic, earlier first), plus ambiguity/duplicate rules, Match.run argument passing and argument "
+         "spans; path space only - step text is not symbolic (parse/re C engines, see not-applicable sub-claims in DESIGN.md 6)", "DESIGN.md 4/C11",
+         "symbolic execution of real code + z3 (histories by solver-driven choice; per-history concrete comparison)"),
 }
 NA_REASON = "check not built yet in this round (planned, see DESIGN.md section 4)"
 checks = []
